@@ -799,6 +799,8 @@ def compare(case, io, mo, mode):
         if io["spans"] != m["spans"]:
             return f"impl spans={io['spans']} model spans={m['spans']}"
         if io.get("dtype") != m.get("dtype"):
+            if m.get("dtype") is None and op in ("spans_session_fields", "spans_session_arrays") and io.get("dtype") == nc11a_dtype(case):
+                return None      # fix NC11a (C11): the merged list is handed out as an array of the first field's span dtype
             return f"impl dtype={io.get('dtype')} model dtype={m.get('dtype')} (thr={case.get('thr')})"
         return None
     if op == "apply_filter":
@@ -820,6 +822,18 @@ def compare(case, io, mo, mode):
             got = [r.get(sbytes(g), -1) for g in got]
         return None if got == m else f"impl vals={got} model={m}"
     return f"unhandled op {op}"
+
+
+def nc11a_dtype(case):
+    """Session.get_spans(fields=...) in the forms that merge per-field spans (Field arguments; three or more ndarrays): as found
+    the result is the merge kernel's python list (model dtype None); with fix NC11a it is np.asarray(list, dtype=<span dtype of
+    the FIRST field>): int32 below the int64 threshold, int64 from it on, int64 when the first field is an indexed string
+    (its get_spans() is a list of python ints)."""
+    first = case["cols"][0]
+    if first.get("kind") == "indexed":
+        return "int64"
+    thr = case.get("thr")
+    return "int32" if col_len(first) < (DEFAULT_THR if thr is None else thr) else "int64"
 
 
 def mode_diff_ok(case, jit_out, other_out, mode):
